@@ -517,7 +517,23 @@ impl Units {
                     acc.violation("uomConvert unknown-unit-accepted", json!({"from": a, "to": b}), "Fail".into(), got.show());
                 }
             }
+            // an unknown unit on both sides (equal, differing in case or blanks, or two unknowns)
+            if i / 6 == 0 {
+                let unknown = ["", "parsec", "kgg", "lightyear", "°", "Parsec", " parsec", "PARSEC"];
+                for a in unknown {
+                    for b in unknown {
+                        for mag in [V::Dbl(1.0), V::Int(3), V::UInt(3)] {
+                            let got = Self::conv(&mag, a, b);
+                            acc.eval();
+                            if !got.is_fail() {
+                                acc.violation("uomConvert unknown-unit-on-both-sides-accepted", json!({"from": a, "to": b}), "Fail".into(), got.show());
+                            }
+                        }
+                    }
+                }
+            }
             acc.nontrivial(&idx);
+
         } else {
             // transitivity over canonical spellings: a->b->c == a->c
             let i = idx - n * n - 6 * n;
